@@ -120,7 +120,11 @@ def run(tier, seed):
     for it in range(ncase // 4):
         n = rng.choice([2, 3, 4]); k = rng.randrange(n); sd = rng.randrange(2 ** 31); nsteps = rng.randint(10, 60)
         gs = gen_rates(rng, n, k, nsteps)
-        tr = mudslide.EvenSamplingTrajectory(StubModel([1.0], n), [0.0], [1.0], k, dt=1.0, seed_sequence=sd, spawn_stack=None)
+        # stub electronics: either every other state lies far above (all attempts frustrated) or far below (all accepted)
+        mode = ["frustrated", "accepted"][it % 2]
+        en = [(-5.0 * (1 + j) if mode == "accepted" else 50.0 * (1 + j)) for j in range(n)]; en[k] = 0.0
+        elec = StubElec(np.diag(en), rand_antisym_dc(rng, n, 1), np.zeros((n, 1)))
+        tr = mudslide.EvenSamplingTrajectory(StubModel([1.0], n, [elec]), [0.0], [1.0], k, dt=1.0, seed_sequence=sd, spawn_stack=None, electronics=elec)
         stream = np.random.default_rng(np.random.SeedSequence(sd)).random(2 * nsteps + 6).tolist()
         stream.pop(0)                                  # TrajectoryCum.__init__ draws one threshold that the subclass then replaces
         o_z = stream.pop(0); surv = 1.0; natt = 0
@@ -128,6 +132,7 @@ def run(tier, seed):
         if float(tr.zeta) != o_z:
             bad.append(dict(failed="even-sampling fallback: initial threshold is a uniform number of the trajectory's stream (want %r got %r)" % (o_z, float(tr.zeta)), case=info0)); continue
         for step, g in enumerate(gs):
+            g = list(g); g[int(tr.state)] = 0.0          # the rate to the current state is not a hopping rate
             out = tr.hopper(np.array(g)); G = math.fsum(g); surv *= math.exp(-G); want_acc = 1.0 - surv
             if abs(want_acc - o_z) < 1e-12: break
             if bool(out) != (want_acc > o_z):
@@ -136,7 +141,15 @@ def run(tier, seed):
                 o_z = stream.pop(0); u = stream.pop(0); natt += 1
                 if float(tr.zeta) != o_z:
                     bad.append(dict(failed="even-sampling fallback: after an attempt a fresh uniform threshold is drawn (want the stream's next number %r, got %r; accumulated was %r)" % (o_z, float(tr.zeta), want_acc), case=dict(info0, step=step, rates=gs[:step + 1]))); break
-                tr.prob_cum = 0.0; surv = 1.0          # what hop_to_it does for a leaf
+                st_before = int(tr.state)
+                try:
+                    tr.hop_to_it(out, elec)                 # the real leaf path: reset the accumulation, then attempt the hop
+                except Exception as ex:
+                    bad.append(dict(failed="even-sampling fallback: hop_to_it raised %r" % (ex,), case=dict(info0, step=step))); break
+                res.count("es-leaf-attempts/" + ("accepted" if int(tr.state) != st_before else "frustrated"))
+                if float(tr.prob_cum) != 0.0:
+                    bad.append(dict(failed="even-sampling fallback: after an attempt (here %s) the accumulation is reset to zero (prob_cum=%r)" % ("accepted" if int(tr.state) != st_before else "frustrated", float(tr.prob_cum)), case=dict(info0, step=step, rates=gs[:step + 1]))); break
+                surv = 1.0
         res.count("es-leaf-sequences"); res.count("es-leaf-attempts", natt); res.case(("es-leaf", n, k, sd), natt > 0)
     failing, errors = run_case_check("C09", PRELUDE, "case09", "chk09", cases, per_file=100)
     for e in errors:
